@@ -1,22 +1,19 @@
 /-
 C06 — Farm: rewards are conserved and paid pro rata to stake and time.
-Headline theorems about the model `Irismod.Farm`.
+Headline theorems about the model `Irismod.Farm`, for every history.
 
 * (a) per rule `total = remaining + released + refunded`, a rule is refunded at most once and
-  a refunded rule belongs to an ended pool with nothing left (`conserved_partial`,
-  `refund_once_partial`);
+  a refunded rule belongs to an ended pool with nothing left (`conserved_run`,
+  `refund_once_run`);
 * (b) one `updatePool` releases exactly `rewardPerBlock × span` per rule iff the pool had stake
   over the span, else nothing (`release_exact`);
 * (c) budget solvency `remaining ≥ rewardPerBlock × (end − max(last, start))` of every active
-  pool: preserved by every operation outside the F-farm-2 class (`budget_step`,
-  `budget_partial`), broken by an operation of the class (`budget_can_fail`);
+  pool (`budget_step`, `budget_run`) — the invariant the code violated before commit 966aea0;
 * (d) fairness: each farmer's cumulative payout is within `n × (1 − 10⁻¹⁸)` base units of
-  `Σ Δ rewardPerShare × stake` (`fair_partial`; `n` = the farmer's number of interactions),
+  `Σ Δ rewardPerShare × stake` (`fair_run`; `n` = the farmer's number of interactions),
   per-step floor bound (`payout_step_bound`); the accumulator is the exact per-share release
   truncated at 18 decimals (`release_truncation`, over ℚ); and against the exact rational
-  stake-time share: `paid − exact ≤ n`, `exact − paid ≤ n + slack·10⁻¹⁸` (`fairQ_partial`).
-All "partial" statements quantify over every history without an operation of the F-farm-2
-class (`Clean`); for (c) this exclusion is necessary.
+  stake-time share: `paid − exact ≤ n`, `exact − paid ≤ n + slack·10⁻¹⁸` (`fairQ_run`).
 -/
 import Irismod.Proofs.FarmWitness
 import Irismod.Proofs.FarmFairQ
@@ -34,19 +31,19 @@ theorem ghost_conserved {s : State} (h : GhostOK s) : Conserved s :=
 theorem ghost_refundOnce {s : State} (h : GhostOK s) : RefundOnce s :=
   fun id p hp r hr => (h id p hp r hr).2
 
-/-- **C06(a)**: along every history outside the F-farm-2 class, every reward rule satisfies
+/-- **C06(a)**: along every history, every reward rule satisfies
 funded budget = remaining + released + refunded. -/
-theorem conserved_partial (s0 : State) (ops : List Op) (hg : C05.Genesis s0) (hh : 0 ≤ s0.height)
-    (hc : Clean s0 ops) : Conserved (run s0 ops) :=
-  ghost_conserved (inv_run ops s0 (inv_genesis hg hh) hc).core.ghost
+theorem conserved_run (s0 : State) (ops : List Op) (hg : C05.Genesis s0) (hh : 0 ≤ s0.height) :
+    Conserved (run s0 ops) :=
+  ghost_conserved (inv_run ops s0 (inv_genesis hg hh)).core.ghost
 
 /-- **C06(a')**: … and is refunded at most once; a refunded rule has nothing left and its pool
 has ended (left the queue, end height reached) — so no later operation can touch it:
 `Refund` runs only from `DestroyPool` and the EndBlocker, both of which require the queue
 entry that the refund removes. -/
-theorem refund_once_partial (s0 : State) (ops : List Op) (hg : C05.Genesis s0) (hh : 0 ≤ s0.height)
-    (hc : Clean s0 ops) : RefundOnce (run s0 ops) :=
-  ghost_refundOnce (inv_run ops s0 (inv_genesis hg hh) hc).core.ghost
+theorem refund_once_run (s0 : State) (ops : List Op) (hg : C05.Genesis s0) (hh : 0 ≤ s0.height) :
+    RefundOnce (run s0 ops) :=
+  ghost_refundOnce (inv_run ops s0 (inv_genesis hg hh)).core.ghost
 
 /-- the refund itself: an accepted destroy (or a due end-block refund) returns exactly the
 remaining budget — the module account pays `Σ remaining` to the creator and the rules are
@@ -94,67 +91,15 @@ theorem release_exact {s s' : State} {id : PoolId} {p p' : Pool} {amount : Int} 
 
 /-! ### (c) budget solvency -/
 
-/-- **C06(c)**, one step: an operation outside the F-farm-2 class keeps every active pool's
-remaining budget above what the rest of its schedule costs. -/
-theorem budget_step (s : State) (op : Op) (hi : Inv s) (hx : ¬ EndTopUp s op) : BudgetOK (apply s op) :=
-  (inv_apply s op hi hx).core.budget
+/-- **C06(c)**, one step: every operation keeps every active pool's remaining budget above what
+the rest of its schedule costs. -/
+theorem budget_step (s : State) (op : Op) (hi : Inv s) : BudgetOK (apply s op) :=
+  (inv_apply s op hi).core.budget
 
-/-- **C06(c)**, all histories outside the class. -/
-theorem budget_partial (s0 : State) (ops : List Op) (hg : C05.Genesis s0) (hh : 0 ≤ s0.height)
-    (hc : Clean s0 ops) : BudgetOK (run s0 ops) :=
-  (inv_run ops s0 (inv_genesis hg hh) hc).core.budget
-
-theorem budgetOK_bool {s : State} {id : PoolId} {p : Pool} (h : BudgetOK s) (hp : getPool s id = some p)
-    (ha : active s id p = true) : C05.budgetOkPool p = true := by
-  unfold C05.budgetOkPool
-  simp only [List.all_eq_true, decide_eq_true_eq]
-  intro r hr
-  exact h id p hp ha r hr
-
-/-- the state before the end-block top-up of the F-farm-2 history -/
-def w2Before : State := run w2Genesis (w2Ops.take 3)
-def w2TopUp : Op := .adjustPool "A0" "farm-1" (some [("btc", 10)]) none
-
-theorem w2_clean : Clean w2Genesis (w2Ops.take 3) := by
-  refine ⟨fun h => h, fun h => h, fun h => h, trivial⟩
-
-set_option maxRecDepth 100000 in
-/-- **C06(c) fails exactly in the class**: the state reached by create / stake / five blocks
-satisfies the whole bundle (in particular `BudgetOK`), and the creator's top-up of one reward
-denom in the end block — accepted by the code — produces an active pool whose `eth` rule has
-0 remaining against 10 more blocks of schedule (finding F-farm-2). -/
-theorem budget_can_fail : ∃ s op, Inv s ∧ BudgetOK s ∧ EndTopUp s op ∧ ¬ BudgetOK (apply s op) := by
-  have hi : Inv w2Before := inv_run _ _ (inv_genesis w2_genesis (by decide)) w2_clean
-  refine ⟨w2Before, w2TopUp, hi, hi.core.budget, ?_, ?_⟩
-  · -- the operation is in the class: height = end height 15, started, `eth` not topped up
-    cases hp : getPool w2Before "farm-1" with
-    | none =>
-      have : (getPool w2Before "farm-1").isSome = true := by decide
-      rw [hp] at this; cases this
-    | some p =>
-      have h1 : (getPool w2Before "farm-1").map (fun p => (p.endH, p.start)) = some (15, 10) := by decide
-      have h2 : ((getPool w2Before "farm-1").map (fun p => p.rules.map (·.denom))) = some ["btc", "eth"] := by decide
-      rw [hp] at h1 h2
-      simp only [Option.map, Option.some.injEq, Prod.mk.injEq] at h1 h2
-      have hh : w2Before.height = 15 := by decide
-      refine ⟨p, hp, by rw [hh, h1.1], by rw [hh, h1.2]; decide, ?_⟩
-      -- the rule with denom "eth"
-      have : "eth" ∈ p.rules.map (·.denom) := by rw [h2]; simp
-      simp only [List.mem_map] at this
-      obtain ⟨r, hr, hd⟩ := this
-      exact ⟨r, hr, by rw [hd]; decide⟩
-  · intro hb
-    cases hp : getPool (apply w2Before w2TopUp) "farm-1" with
-    | none =>
-      have : (getPool (apply w2Before w2TopUp) "farm-1").isSome = true := by decide
-      rw [hp] at this; cases this
-    | some p =>
-      have ha : ((getPool (apply w2Before w2TopUp) "farm-1").map (fun p => active (apply w2Before w2TopUp) "farm-1" p)) = some true := by decide
-      have hbad : ((getPool (apply w2Before w2TopUp) "farm-1").map C05.budgetOkPool) = some false := by decide
-      rw [hp] at ha hbad
-      simp only [Option.map, Option.some.injEq] at ha hbad
-      have := budgetOK_bool hb hp ha
-      rw [hbad] at this; cases this
+/-- **C06(c)**, all histories. -/
+theorem budget_run (s0 : State) (ops : List Op) (hg : C05.Genesis s0) (hh : 0 ≤ s0.height) :
+    BudgetOK (run s0 ops) :=
+  (inv_run ops s0 (inv_genesis hg hh)).core.budget
 
 /-! ### (d) fairness -/
 
@@ -165,28 +110,27 @@ theorem payout_step_bound (rps mark : Int) (L : Nat) :
     (((rps * (L : Int)) / precision - (mark * (L : Int)) / precision) * (unit : Int) - (rps - mark) * (L : Int)).natAbs
       ≤ unit - 1 := payout_bound rps mark L
 
-/-- **C06(d)**, telescoped over every history outside the F-farm-2 class: for every farmer,
+/-- **C06(d)**, telescoped over every history: for every farmer,
 pool and reward denom, `|paid × 10¹⁸ − Σ Δ rewardPerShare.raw × stake| ≤ n × (10¹⁸ − 1)` where
 `n` is the farmer's number of interactions — the cumulative payout is within `n` base units
 (strictly less) of the farmer's accumulator share, however the interactions are interleaved
 with other farmers' and however often anyone harvests. -/
-theorem fair_partial (s0 : State) (ops : List Op) (hg : C05.Genesis s0) (hh : 0 ≤ s0.height)
-    (hc : Clean s0 ops) : Fair (run s0 ops) :=
-  (ledgerInv_run ops s0 (inv_genesis hg hh) hc (ledgerInv_genesis hg)).fair
+theorem fair_run (s0 : State) (ops : List Op) (hg : C05.Genesis s0) (hh : 0 ≤ s0.height) :
+    Fair (run s0 ops) :=
+  (ledgerInv_run ops s0 (inv_genesis hg hh) (ledgerInv_genesis hg)).fair
 
-/-- **C06(d)**, against the exact rational stake-time share, over ℚ and every history outside
-the F-farm-2 class: with `exact = Σ_k released_k × stake_k / totalStake_k` (the untruncated
+/-- **C06(d)**, against the exact rational stake-time share, over ℚ and every history: with `exact = Σ_k released_k × stake_k / totalStake_k` (the untruncated
 share accrued up to the farmer's last interaction), `n` the farmer's number of interactions
 and `slack = Σ stake × (releases in the interval)`,
 `paid − exact ≤ n` and `exact − paid ≤ n + slack × 10⁻¹⁸`. -/
-theorem fairQ_partial (s0 : State) (ops : List Op) (hg : C05.Genesis s0) (hh : 0 ≤ s0.height)
-    (hc : Clean s0 ops) : ∀ k, LedgerFairQ (AMap.getD (run s0 ops).ledger k {}) := by
+theorem fairQ_run (s0 : State) (ops : List Op) (hg : C05.Genesis s0) (hh : 0 ≤ s0.height) :
+    ∀ k, LedgerFairQ (AMap.getD (run s0 ops).ledger k {}) := by
   intro k
   have hi := inv_genesis hg hh
-  exact fairQ_of ((ledgerInv_run ops s0 hi hc (ledgerInv_genesis hg)).fair k)
-    ((qInv_run ops s0 hi hc (qInv_genesis hg)).x k)
+  exact fairQ_of ((ledgerInv_run ops s0 hi (ledgerInv_genesis hg)).fair k)
+    ((qInv_run ops s0 hi (qInv_genesis hg)).x k)
 
-/-- harvest-frequency independence as a corollary of `fair_partial`: two histories in which a
+/-- harvest-frequency independence as a corollary of `fair_run`: two histories in which a
 farmer's accumulator share is the same (`owed`) pay him amounts that differ by less than the
 total number of his interactions in the two histories. -/
 theorem harvest_independence (l1 l2 : Ledger) (h1 : LedgerFair l1) (h2 : LedgerFair l2) (ho : l1.owed = l2.owed) :
